@@ -52,6 +52,35 @@ func Rec(n int) int {
 	}
 	return n + Rec(n-1)
 }
+
+func Wait(x int) int {
+	c := make(chan int)
+	go func() {
+		n := 0
+		for i := 0; i < 3000; i++ { // the receiver is blocked by the time the value is sent
+			n += i % 3
+		}
+		c <- x*2 + n - n
+	}()
+	return <-c + 1
+}
+
+var WaitClo = func(x int) int {
+	c, d := make(chan int), make(chan int)
+	go func() {
+		n := 0
+		for i := 0; i < 3000; i++ {
+			n += i % 3
+		}
+		c <- x + n - n
+	}()
+	select {
+	case v := <-c:
+		return v + 2
+	case v := <-d:
+		return v
+	}
+}
 `
 
 type c10Def struct {
@@ -78,6 +107,9 @@ var c10DefList = []c10Def{
 	{"func-in-struct", "FS.F(2)", "FS.F", []int{2}, func(*c10State) int { return 1 }},
 	{"func-in-slice", "FL[0](3)", "FL[0]", []int{3}, func(*c10State) int { return 9 }},
 	{"stateful-closure", "Counter()", "Counter", nil, func(s *c10State) int { s.counter++; return s.counter }},
+	// definitions which block in channel operations: they must not see a stale cancellation
+	{"blocking-func", "Wait(3)", "Wait", []int{3}, func(*c10State) int { return 7 }},
+	{"blocking-closure", "WaitClo(3)", "WaitClo", []int{3}, func(*c10State) int { return 5 }},
 	// a call statement without result (allocates no new global slot); observed through Side
 	{"void-func", "Void()", "Void", nil, func(s *c10State) int { s.side += 5; return s.side }},
 }
@@ -141,6 +173,11 @@ func c10Run(ops []c10Op) []c10OpRes {
 	var res []c10OpRes
 	fail := func(note string) []c10OpRes {
 		return append(res, c10OpRes{Setup: true, Note: note})
+	}
+	// a first evaluation with a context switches the interpreter to cancellable channel operations, so that
+	// the definitions below are compiled in the form a later cancellation can reach
+	if _, err := i.EvalWithContext(context.Background(), "1 + 1"); err != nil {
+		return fail("warm-up: " + err.Error())
 	}
 	if _, err := i.Eval(c10Defs); err != nil {
 		return fail("defs: " + err.Error())
